@@ -131,7 +131,13 @@ class EncodeState:
             str_encoding = get_string_encoding(base_data_type, base_type_encoding,
                                                is_highlow_byte_order)
             if str_encoding is not None:
-                raw_value = internal_value.encode(str_encoding)
+                try:
+                    raw_value = internal_value.encode(str_encoding)
+                except UnicodeError as e:
+                    odxraise(
+                        f"The string '{internal_value!r}' cannot be encoded "
+                        f"using {str_encoding}: {e}", EncodeError)
+                    raw_value = internal_value.encode(str_encoding, errors="replace")
             else:
                 raw_value = b""
 
